@@ -7,7 +7,7 @@
    `nth_transform` (C10), the matcher `matches` (C01/C02) and the rank order `rank_sort` (C04) are universally
    quantified: the theorems hold for every instance. *)
 From Coq Require Import Permutation.
-From Fzf Require Import Prelude OutputSpec OutputModel OutputProofs.
+From Fzf Require Import Prelude OutputSpec OutputModel OutputProofs OutputFieldsProofs.
 Open Scope Z_scope.
 
 (* --filter, BOTH code paths (streaming: +s without --tac/--sync; collecting otherwise), for all record lists,
@@ -216,3 +216,60 @@ Theorem interactive_total : forall (strip rt : str -> str) parse_ok o s1 e0 quer
   exists r, interactive strip rt parse_ok o s1 e0 query merger count acts = Ok r.
 Proof. exact interactive_total_proof. Qed.
 Print Assumptions interactive_total.
+
+(* ---- --accept-nth in general (AWK-style and literal delimiters; every field index expression list, every template) ---- *)
+
+(* strings.SplitAfter with a non-empty literal delimiter computes the delimiter-cut fields of the spec: delimiters found
+   left to right without overlap, each field ends with its delimiter, the rest (possibly empty) is the last field *)
+Theorem split_after_fields : forall sep s, sep <> [] -> split_after sep s = str_fields sep s.
+Proof. exact split_after_fields_proof. Qed.
+Print Assumptions split_after_fields.
+
+(* those fields are a partition of the record: concatenated they give it back byte for byte *)
+Theorem str_fields_partition : forall sep s, concat (str_fields sep s) = s.
+Proof. exact str_fields_partition_proof. Qed.
+Print Assumptions str_fields_partition.
+
+(* accept_nth_fields: Item.acceptNth (Tokenize, Transform over the parsed Ranges, JoinTokens, the template closure of
+   nthTransformer with StripLastDelimiter on every {..} part and strconv.Itoa for {n}, then StripLastDelimiter on the
+   whole) prints accept_text: the fields the expressions select, one after the other, exactly, minus ONE delimiter
+   when the text ends with one and minus the white space at the end.  For ALL records, field index expression lists
+   and templates, AWK-style or literal (non-empty) delimiter; the ordinal number fits an int32.
+   (regex delimiters are not in the model; the spec covers '[set]' and '[set]+' and is evaluated on the
+   implementation's output by the harness) *)
+Theorem accept_nth_fields :
+  forall (strip rt : str -> str) o a it,
+  delim_ok (to_delim o) -> Z.of_nat (it_index it) < 2 ^ 31 ->
+  accept_nth strip rt o (model_nth a) it =
+  Ok (accept_text (spec_delim (to_delim o)) a (it_index it) (as_string strip rt (to_ansi o) it)).
+Proof. exact accept_nth_fields_proof. Qed.
+Print Assumptions accept_nth_fields.
+
+(* hence the body of `framing`, `exit_code_table` and `select1_exit0_table` (map_res out_transform ...) is, item by
+   item, the whole output form or its accept_text *)
+Theorem accepted_body_fields :
+  forall (strip rt : str -> str) o a its,
+  delim_ok (to_delim o) -> to_accept_nth o = option_map model_nth a ->
+  Forall (fun it => Z.of_nat (it_index it) < 2 ^ 31) its ->
+  map_res (out_transform strip rt o) its = Ok (map (present_item strip rt o a) its).
+Proof. exact out_transform_fields_proof. Qed.
+Print Assumptions accepted_body_fields.
+
+(* `-d , --accept-nth 1..2` on `a,,b` prints `a,` (the range ends in an empty field: one delimiter goes, one stays);
+   `-d '=>' --accept-nth 1` on `a>=>b` prints `a>`; `-d , --accept-nth '{n}:{2..}|{1}'` on the 8th record `x, y ,z,`
+   prints `7: y ,z|x`; `-d '[,;]+' --accept-nth 1` on `a;,b` prints `a` *)
+Example c07_accept_fields_nonvacuous :
+  let o := fun d => mkTopts false false false false 0 None d in
+  accept_nth ex_strip (fun s => s) (o (DStr [44])) (model_nth (AFields [(1, 2)])) (mkItem 0 [97;44;44;98] None) = Ok [97;44] /\
+  accept_text (FStr [44]) (AFields [(1, 2)]) 0 [97;44;44;98] = [97;44] /\
+  str_fields [44] [97;44;44;98] = [[97;44]; [44]; [98]] /\
+  accept_nth ex_strip (fun s => s) (o (DStr [61;62])) (model_nth (AFields [(1, 1)])) (mkItem 0 [97;62;61;62;98] None) = Ok [97;62] /\
+  accept_text (FStr [61;62]) (AFields [(1, 1)]) 0 [97;62;61;62;98] = [97;62] /\
+  accept_nth ex_strip (fun s => s) (o (DStr [44]))
+             (model_nth (ATemplate [TIndex; TLit [58]; TFields [(2, 0)]; TLit [124]; TFields [(1, 1)]]))
+             (mkItem 7 [120;44;32;121;32;44;122;44] None) = Ok [55;58;32;121;32;44;122;124;120] /\
+  accept_text (FStr [44]) (ATemplate [TIndex; TLit [58]; TFields [(2, 0)]; TLit [124]; TFields [(1, 1)]]) 7
+              [120;44;32;121;32;44;122;44] = [55;58;32;121;32;44;122;124;120] /\
+  accept_text (FSet [44;59] true) (AFields [(1, 1)]) 0 [97;59;44;98] = [97] /\
+  delim_ok (DStr [44]).
+Proof. vm_compute. repeat split; try reflexivity; discriminate. Qed.
